@@ -88,7 +88,13 @@ func c02RoundTrip(x *mc.Exec, c *DocCase, sigBase string) {
 	}
 	// copy what the comparison needs before unmarshaling (marshal may reorder included)
 	var doc2 *j.Document
-	p = Try(func() { doc2, err = j.UnmarshalDocument(out, c.Schema) })
+	if c02ExploreMemberOrder {
+		WithMapDevIn(x, map[string]bool{"UnmarshalResource": true, "UnmarshalDocument": true}, func() {
+			p = Try(func() { doc2, err = j.UnmarshalDocument(out, c.Schema) })
+		})
+	} else {
+		p = Try(func() { doc2, err = j.UnmarshalDocument(out, c.Schema) })
+	}
 	x.R.Add("transitions", 1)
 	x.Observe(string(out), p, err != nil)
 	if p != "" {
@@ -209,7 +215,13 @@ func c02RoundTrip(x *mc.Exec, c *DocCase, sigBase string) {
 	}
 }
 
+// c02ExploreMemberOrder: the member-visiting order inside UnmarshalResource /
+// UnmarshalDocument is under explorer control (deviation bound 1) in C02/docs.
+var c02ExploreMemberOrder = false
+
 func c02Docs(x *mc.Exec) {
+	c02ExploreMemberOrder = true
+	defer func() { c02ExploreMemberOrder = false }()
 	c := GenDoc(x, true)
 	x.R.Sample("doc", c.Desc)
 	c02RoundTrip(x, c, "C02:docs")
@@ -323,7 +335,7 @@ func init() {
 		Rule: "Engine A, all choices Full: the complete product 14 primary-data kinds x 5 included lists (ids colliding across types and not, mixed implementations) x 4 metas (nil, {}, scalars, nested/array/null/escapes) x 3 error lists x 6 prefixes x 3 field selections x 2 relationship-data requests; plus every one of the 256 member subsets of one error object, all pairs and triples (with repetition, every order) of 6 representative errors, and errors together with data. and every ordered pair of 8 richer documents marshaled one after the other before the first payload is read back. Each document is marshaled and unmarshaled against the same schema; oracle written in the harness: kind of primary data, members in order by (type,id,selected values), included as a set keyed by (type,id), meta and error members as canonical JSON. Non-trivial = distinct marshaled payload",
 		Assumptions: []string{"an Identifier document may come back as a single field-less resource with the same type and id (JSON:API cannot tell them apart); weaker reading chosen deliberately", "empty map == absent for meta / links / source"},
 		Harnesses: []Harness{
-			{Name: "C02/docs", Body: c02Docs},
+			{Name: "C02/docs", Body: c02Docs, Dev: func() int { return 1 }, ShardDepth: 3},
 			{Name: "C02/errors", Body: c02Errors},
 			{Name: "C02/interleaved", Body: c02Interleaved},
 		},
